@@ -83,4 +83,16 @@ def specDecide (cfg : Cfg) (allowed : List (List Char)) (r : CGReq) : Outcome :=
         | .ok => .issued info.user
         | .refused s => .refused s
 
+/-! ### histories (round 5): the handler keeps nothing between requests, so every request of a history — served one
+after the other, or overlapping in any schedule — is decided from what IT carries, at the time IT is served -/
+
+/-- the same request (same credential, byte for byte) served at another time -/
+def CGReq.servedAt (r : CGReq) (t : Int) : CGReq := { r with req := { r.req with now := t } }
+
+def decideHistory (cfg : Cfg) (allowed : List (List Char)) (rs : List CGReq) : List Outcome :=
+  rs.map (decide cfg allowed)
+
+def specDecideHistory (cfg : Cfg) (allowed : List (List Char)) (rs : List CGReq) : List Outcome :=
+  rs.map (specDecide cfg allowed)
+
 end KM.CertGen
